@@ -22,6 +22,9 @@ struct Case {
     entries: Vec<Entry>,
     /// knowledge-base edits between the calls: (made just before call #i, rule name, true = remove_rule / false = add the rule again)
     kb_edits: Vec<(usize, String, bool)>,
+    /// the caller holds an undo frame open on the fact store during all the calls (a what-if run
+    /// that it means to roll back afterwards); the frame only records, it changes no value
+    undo_frame: bool,
 }
 
 impl Case {
@@ -34,6 +37,7 @@ impl Case {
             "entries": self.entries.iter().map(|e| e.name()).collect::<Vec<_>>(),
             "kb_edits": self.kb_edits.iter().map(|(i, n, rm)| json!({"before_call": i, "rule": n, "op": if *rm { "remove_rule" } else { "add_rule_again" }})).collect::<Vec<_>>(),
             "grl": fmt_rules(&self.rules),
+            "undo_frame_open_during_calls": self.undo_frame,
         })
     }
     fn from_json(j: &Json) -> Option<Case> {
@@ -53,6 +57,7 @@ impl Case {
                     .collect(),
                 None => vec![],
             },
+            undo_frame: j.get("undo_frame_open_during_calls").and_then(|v| v.as_bool()).unwrap_or(false),
         })
     }
 }
@@ -68,6 +73,7 @@ struct Obs {
     fixpoint_rules_checked: u64,
     exec_err: bool,
     kb_edits: u64,
+    undo_frame: bool,
     grouped: bool,
     undefined: Vec<&'static str>,
 }
@@ -99,6 +105,10 @@ fn judge(case: &Case) -> (Verdict, Obs) {
     let mut absent: std::collections::BTreeSet<String> = std::collections::BTreeSet::new();
     // rules that came back through add_rule (enabled again, whatever `disabled` said)
     let mut readded: std::collections::BTreeSet<String> = std::collections::BTreeSet::new();
+    if case.undo_frame {
+        session.open_undo_frame();
+        obs.undo_frame = true;
+    }
     for (ci, entry) in case.entries.iter().enumerate() {
         for (at, name, remove) in &case.kb_edits {
             if *at != ci {
@@ -327,6 +337,9 @@ fn record(case: &Case, st: &mut Stats) {
         st.count("histories_with_several_calls_on_one_engine");
     }
     st.add("knowledge_base_edits_between_calls", obs.kb_edits);
+    if obs.undo_frame {
+        st.count("cases_with_an_undo_frame_held_open_on_the_fact_store");
+    }
     st.add("passes_observed", obs.passes);
     st.add("firings_observed", obs.firings);
     st.add("fixpoint_rule_checks", obs.fixpoint_rules_checked);
@@ -530,7 +543,8 @@ fn gen_case(rng: &mut Rng) -> Case {
             kb_edits.push((at, rng.pick(&rules).name.clone(), true));
         }
     }
-    Case { rules, disabled, store: gen_store(rng), max_cycles, entries, kb_edits }
+    let undo_frame = rng.chance(1, 12);
+    Case { rules, disabled, store: gen_store(rng), max_cycles, entries, kb_edits, undo_frame }
 }
 
 struct C03;
@@ -568,7 +582,7 @@ impl Check for C03 {
         "C03"
     }
     fn rule(&self) -> String {
-        "1-5 rules drawn from: counters under a limit above/below the bound, flag flippers (ping-pong), always-true rules, quiescing rules, string state machines, counters chasing each other or a moving limit (arithmetic on the left of the comparison, a fact on the right), rules that raise a limit, rules that are true on absent data (`d != true`), rules that write three segments deep into an object lacking the intermediate member; no-loop on 1/3 of the rules, activation groups on 1/4, 1/8 disabled, salience ties and negative / i32::MIN / i32::MAX saliences, rules whose action fails (the call returns Err); 1-3 calls on ONE engine and fact store (execute_with_callback / execute mixed), in half of the multi-call histories with remove_rule / add-the-rule-again edits of the knowledge base between two calls; one fact store in 16 completely empty; max_cycles over 0..=64 (a fixed family of programs is run on EVERY max_cycles value: exhaustive over that grid), timeout None. Non-trivial: at least one firing and at least two passes observed; distinct by (rules, disabled, store, max_cycles).".into()
+        "1-5 rules drawn from: counters under a limit above/below the bound, flag flippers (ping-pong), always-true rules, quiescing rules, string state machines, counters chasing each other or a moving limit (arithmetic on the left of the comparison, a fact on the right), rules that raise a limit, rules that are true on absent data (`d != true`), rules that write three segments deep into an object lacking the intermediate member; no-loop on 1/3 of the rules, activation groups on 1/4, 1/8 disabled, salience ties and negative / i32::MIN / i32::MAX saliences, rules whose action fails (the call returns Err); 1-3 calls on ONE engine and fact store (execute_with_callback / execute mixed), in half of the multi-call histories with remove_rule / add-the-rule-again edits of the knowledge base between two calls; one fact store in 16 completely empty; in one case in 12 the caller holds an undo frame open on the fact store during all the calls (begin_undo_frame before the first call, never closed); max_cycles over 0..=64 (a fixed family of programs is run on EVERY max_cycles value: exhaustive over that grid), timeout None. Non-trivial: at least one firing and at least two passes observed; distinct by (rules, disabled, store, max_cycles).".into()
     }
     fn assumptions(&self) -> Vec<String> {
         vec![
